@@ -198,6 +198,10 @@ def check_format_input_orientation(inp, init_format=False):
         inpQ = inp.as_quat()
     # return
     if init_format:
+        if inpQ.size == 0:
+            raise MagpylibBadUserInput(
+                "Input parameter `orientation` must not be an empty scipy `Rotation` object."
+            )
         return np.reshape(inpQ, (-1, 4))
     return inp, inpQ
 
@@ -347,6 +351,11 @@ def check_format_input_vector(
         ),
     )
     if isinstance(reshape, tuple):
+        if inp.size == 0:
+            raise MagpylibBadUserInput(
+                f"Input parameter `{sig_name}` must be {sig_type}.\n"
+                f"Instead received empty array_like with shape {inp.shape}."
+            )
         return np.reshape(inp, reshape)
 
     if forbid_negative0:
